@@ -5,6 +5,7 @@ package main
 import (
 	"fmt"
 	"math/big"
+	"math/bits"
 	"strings"
 
 	"github.com/tuneinsight/lattigo/v6/core/rlwe"
@@ -460,6 +461,81 @@ func c02KeySwitchNoP(c *Ctx) {
 				return ""
 			})
 			c.Probe(cf.name, fmt.Sprintf("%s %s %d", Vec(Q[:nq]), Vec(cf.P), cf.pw2), cf.key, d)
+		}
+	}
+}
+
+// c02DigitCount: the hypothesis q ≤ 2^(w·n) of `pow2_digits_recombine`, evaluated on the digit count lattigo
+// itself chooses (rlwe.Parameters.BaseTwoDecompositionVectorSize, from round(log2 q)).
+func c02DigitCount(c *Ctx) {
+	for _, b := range []int{30, 40, 45} {
+		g := ring.NewNTTFriendlyPrimesGenerator(uint64(b), 64)
+		up, err1 := g.NextUpstreamPrime()     // 2^b + δ : b+1 bits, round(log2) = b
+		down, err2 := g.NextDownstreamPrime() // 2^b − δ : b bits
+		if err1 != nil || err2 != nil {
+			continue
+		}
+		for _, q := range []uint64{up, down} {
+			params, err := rlwe.NewParametersFromLiteral(rlwe.ParametersLiteral{LogN: 5, Q: []uint64{q}, NTTFlag: true})
+			if err != nil {
+				continue
+			}
+			for _, w := range []int{5, 10, 15, 16} {
+				n := params.BaseTwoDecompositionVectorSize(0, -1, w)[0]
+				d := ""
+				if bits.Len64(q) > w*n {
+					d = fmt.Sprintf("q=%d has %d bits but %d digits of %d bits are used", q, bits.Len64(q), n, w)
+				}
+				c.Probe("digit_count_sufficient", fmt.Sprintf("%d %d %d", q, w, n), "C02/BaseTwoDecompositionVectorSize/too-few-digits", d)
+			}
+		}
+	}
+}
+
+// c02DecompNTT: rlwe.Evaluator.DecomposeNTT (the hoisted decomposition), tie only: the digits are those of
+// DecomposeAndSplit (probed there) moved to the NTT domain.
+func c02DecompNTT(c *Ctx, po bool, ch c02Chain) {
+	if po || len(ch.P) == 0 {
+		return
+	}
+	r := c.rng
+	for _, logN := range []int{4, 5} {
+		params, err := rlwe.NewParametersFromLiteral(rlwe.ParametersLiteral{LogN: logN, Q: ch.Q, P: ch.P, NTTFlag: true})
+		if err != nil {
+			c.Count("decompntt:param-error")
+			continue
+		}
+		N := params.N()
+		ringQ, ringP := params.RingQ(), params.RingP()
+		gQ, gP := c02PrimRoots(ringQ), c02PrimRoots(ringP)
+		eval := rlwe.NewEvaluator(params, nil)
+		for _, levelQ := range c02Levels(len(ch.Q)) {
+			levelP := r.Intn(len(ch.P))
+			nbPi := levelP + 1
+			size := params.BaseRNSDecompositionVectorSize(levelQ, levelP)
+			mQ := ch.Q[:levelQ+1]
+			X := c02FamValues(c, N, c02ProdBig(mQ), nil)
+			c2 := c02PolyFromRows(N, c02RowsOf(X, mQ))
+			isNTT := r.Intn(2)
+			if isNTT == 1 {
+				ringQ.AtLevel(levelQ).NTT(c2, c2)
+			}
+			in := c02RowsCopy(c2, levelQ+1)
+			rqp := ringqp.Ring{RingQ: ringQ, RingP: ringP}
+			dq := make([]ringqp.Poly, size)
+			for i := range dq {
+				dq[i] = rqp.NewPoly()
+			}
+			out := Try(func() string {
+				eval.DecomposeNTT(levelQ, levelP, nbPi, c2, isNTT == 1, dq)
+				parts := make([]string, size)
+				for i := range dq {
+					parts[i] = Mat(c02RowsCopy(dq[i].Q, levelQ+1)) + "|" + Mat(c02RowsCopy(dq[i].P, levelP+1))
+				}
+				return strings.Join(parts, "/")
+			})
+			c.Emit(fmt.Sprintf("decompntt %d %s %s %s %s %d %d %d %d %d %s", N, Vec(ch.Q), Vec(gQ), Vec(ch.P), Vec(gP), levelQ, levelP, nbPi, size, isNTT, Mat(in)), out)
+			c.Count("decompntt")
 		}
 	}
 }
